@@ -16,6 +16,10 @@ if "--replay" not in sys.argv:
 
 
 def main():
+    import logging
+    import warnings
+    logging.disable(logging.CRITICAL)
+    warnings.filterwarnings("ignore")
     if len(sys.argv) < 2:
         print("usage: run_check.py <Cxx> [--tier quick|thorough] [--replay file]")
         return 2
